@@ -10,12 +10,13 @@
 //         them with the explicit format, with AUTO_DETECT and (ISO) with the other ISO flag, which
 //         the header documents as equivalent.  The sixth (RFC 822 short, a text the library prints
 //         but has no defined way to read) is its own sub-check, see KNOWN_ID below.
-//   PARSE {t, zigzag(off), fmt_kind, zone_style, lower, frac_kind, sep, mode, api, neg_zero} | fraction digits
+//   PARSE {t, zigzag(off), fmt_kind, zone_style, lower, frac_kind, sep, mode, api, neg_zero + 2*shape4_no_weekday, rfc822_shape} | fraction digits
 //         the harness renders civil time (t + offset) with the offset / designator and expects t.
 // cfg[0] bit 0 = "force the rfc822-short parse-back sub-check and do only that" (regress/C19/known-rfc822-short.replay).
 //
 // Caller obligations respected: strings <= AWS_DATE_TIME_STR_MAX_LEN; AUTO_DETECT never passed to a formatter;
-// every RFC 822 input carries the weekday and a zone (zone-less RFC 822 is "local time, please don't").
+// every RFC 822 input carries a zone (zone-less RFC 822 is "local time, please don't"); the week day is optional
+// (source comment and the suite's rfc822_utc_no_dow_parsing), two-digit years are only rendered for 2000..2099.
 #include "pbt.hpp"
 
 #include <aws/common/byte_buf.h>
@@ -196,7 +197,7 @@ static Op gen_parse() {
         size_t n = chance(25) ? 9 : (size_t)pick(1, 9);
         digits = chance(15) ? std::string(n, '9') : bytes(n, n, '0', '9');
     }
-    return mkop(OP_PARSE, {t, (uint64_t)(off >= 0 ? 2 * off : -2 * off - 1) /* zigzag: shrinks towards 0 */, kind, zs, pick(0, 1), frac, pick(0, 2), pick(0, 2), pick(0, 1), pick(0, 1)}, digits);
+    return mkop(OP_PARSE, {t, (uint64_t)(off >= 0 ? 2 * off : -2 * off - 1) /* zigzag: shrinks towards 0 */, kind, zs, pick(0, 1), frac, pick(0, 2), pick(0, 2), pick(0, 1), pick(0, 3), weighted({40, 20, 15, 10, 15})}, digits);
 }
 
 static Case gen_case() {
@@ -394,6 +395,9 @@ static void run_parse(const Op &op, Ctx &ctx) {
     int sep = (int)(op.arg(6) % 3);
     int mode = (int)(op.arg(7) % 3);
     bool use_cursor = op.arg(8) % 2 == 1, neg_zero = op.arg(9) % 2 == 1;
+    // RFC 822 shape: 0 "Tue, 15 Oct 2002", 1 no week day ("week day abbr is optional"), 2 two-digit year ("year can be
+    // 4 or 2 digits": 20yy), 3 both, 4 day of month without leading zero (RFC 822: 1*2DIGIT)
+    int shape = (int)(op.arg(10) % 5);
 
     // normalise to what the format's grammar has (so that every op is a valid program)
     if (kind == K_RFC822 && zs == 1) zs = 0;       // RFC 822 offsets have no colon
@@ -425,8 +429,16 @@ static void run_parse(const Op &op, Ctx &ctx) {
     }
     std::string text;
     const char SEP[] = {'T', 't', ' '};
-    if (kind == K_RFC822)
-        text = fmt("%s, %02u %s %04lld %02u:%02u:%02u ", WD[c.wd], c.d, MON[c.mo - 1], (long long)c.y, c.h, c.mi, c.s) + zone;
+    if (kind != K_RFC822) shape = 0;
+    if ((shape == 2 || shape == 3) && (c.y < 2000 || c.y > 2099)) shape -= 2; // two digits mean 20yy to this parser
+    if (kind == K_RFC822) {
+        bool wd = shape == 0 || shape == 2 || (shape == 4 && op.arg(9) / 2 % 2 == 0), yy = shape == 2 || shape == 3;
+        text = (wd ? std::string(WD[c.wd]) + ", " : std::string()) + fmt(shape == 4 ? "%u" : "%02u", c.d) + " " + MON[c.mo - 1] + " " +
+               (yy ? fmt("%02lld", (long long)(c.y - 2000)) : fmt("%04lld", (long long)c.y)) + fmt(" %02u:%02u:%02u ", c.h, c.mi, c.s) + zone;
+        if (!wd) ctx.tag("rfc822_no_weekday");
+        if (yy) ctx.tag("rfc822_two_digit_year");
+        if (shape == 4 && c.d < 10) ctx.tag("rfc822_one_digit_day");
+    }
     else if (kind == K_ISO)
         text = fmt("%04lld-%02u-%02u%c%02u:%02u:%02u", (long long)c.y, c.mo, c.d, SEP[sep], c.h, c.mi, c.s) + fraction + zone;
     else
@@ -488,7 +500,7 @@ int main(int argc, char **argv) {
             "1-6 independent operations per case. FMT: instant (uniform in 1970..9999, month boundaries +-1s..+-1day of listed and arbitrary "
             "years, leap days, century years, extremes, 2^31/2^32 seconds) -> accessors, epoch views, six texts vs. reference, parse-back with "
             "explicit format / AUTO_DETECT / other ISO flag. PARSE: harness-rendered RFC 822 / ISO extended / ISO basic text with offset "
-            "-14:00..+14:00 (+-hhmm, ISO also +-hh:mm), Z/UT/UTC/GMT in both cases, ISO fraction .d{1,9} / ,d{1,9}, T/t/space. Non-trivial = an "
+            "-14:00..+14:00 (+-hhmm, ISO also +-hh:mm), Z/UT/UTC/GMT in both cases, RFC 822 also without week day, with a two-digit year (20yy) and a one-digit day, ISO fraction .d{1,9} / ,d{1,9}, T/t/space. Non-trivial = an "
             "instant on the first or last day of a month in a year divisible by 4 or 100, or a parse input with a non-zero offset; distinct by "
             "hash of the serialised case"};
     return pbt_main(argc, argv, sp);
